@@ -744,7 +744,12 @@ func init() {
 				find(0, 3).Ctx.Ack()
 				desc += " after a late acknowledgement of (vb0,3) inside the window"
 			}
-			e.Stream.Save() // what Dcp.Commit() does
+			commit := vrt.Choose(2, true, "commit-inside-the-window") == 1
+			if commit {
+				e.Stream.Save() // what Dcp.Commit() does
+			} else {
+				desc = strings.Replace(desc, "Commit() inside the rebalance window", "no Commit() inside the rebalance window", 1)
+			}
 			if st, _ := e.StoredSeq(0); st < 2 {
 				vrt.Failf("%s: the store held 2 for vb0 and holds %d after that Commit() (durable progress destroyed)", desc, st)
 			}
@@ -754,9 +759,14 @@ func init() {
 			vrt.Sleep(o.RebalanceDelay + 5*time.Second)
 			vrt.Quiesce()
 			c.WaitIdle()
+			stored0, _ := e.StoredSeq(0)
 			for _, r := range c.Requests[n0:] {
 				if r.Kind == "openstream" && r.Vb == 0 && r.Args[2] < 2 {
 					vrt.Failf("%s: the session the rebalance opened requested vb0 from %d, position 2 had been committed", desc, r.Args[2])
+				}
+				// ... and with exactly what is persisted for it (an acknowledgement that was never stored is not)
+				if r.Kind == "openstream" && r.Vb == 0 && r.Args[2] != stored0 {
+					vrt.Failf("%s: the session the rebalance opened requested vb0 from %d, the store holds %d", desc, r.Args[2], stored0)
 				}
 			}
 			vrt.SetOutcome(desc)
